@@ -132,7 +132,7 @@ STRIP_TESTS = (r"\n#\[cfg\(test\)\]\nmod tests \{.*\Z", "\n", 1, "S")
 # (one or more such lines, whatever they import: tolerant to harmless edits of the import list)
 USE_MODELS = (r"^use std::collections::", "use crate::verif_models::", "+")
 COLLECTIONS = ("shared", "models/collections.rs", "src/collections.rs")
-_rows = [dict(name="c06::row_%02d" % i, prop="C06", tier="thorough", timeout=1500,
+_rows = [dict(name="c06::row_%02d" % i, prop="C06", tier="thorough", timeout=5400,
               encodes="logs::compare", bounds="local shape %d x all 16 remote shapes, 2 authors x 2 logs, all u32 heights" % i) for i in range(16)]
 def _relax_vacuous(unit, names, labels):
     """harnesses whose local side is empty can never need a range: that branch is legitimately unreachable there"""
@@ -359,10 +359,13 @@ UNITS["enc"] = dict(
         (_ENC + "key_bundle/lifetime.rs", "Lifetime::verify", r"pub fn verify\(&self\)"),
     ],
     harnesses=[
-        dict(name="message_scheme::ratchet::verif_proofs::two_requests_windows_le2", prop="C34", timeout=600,
+        dict(name="message_scheme::ratchet::verif_proofs::one_step_from_any_valid_state", prop="C34", timeout=1500,
+             encodes="DecryptionRatchet::secret_for_decryption, RatchetSecret::ratchet_forward (sender oracle)",
+             bounds="ONE inductive step from any ratchet state satisfying the representation invariant: head 0..4, <= 3 kept entries each used/unused, ooo_tolerance 0..=3, max_forward 0..=3 (ooo + max_forward <= 5), any request up to head+max_forward+1"),
+        dict(name="message_scheme::ratchet::verif_proofs::two_requests_windows_le2", prop="C34", tier="thorough", timeout=2400,
              encodes="DecryptionRatchet::secret_for_decryption, RatchetSecret::ratchet_forward (sender oracle)",
              bounds="2 requests over generations 0..3, ooo_tolerance in 0..=2, max_forward in 0..=3, all orders/losses/duplicates"),
-        dict(name="message_scheme::ratchet::verif_proofs::three_requests_windows_le2", prop="C34", timeout=900,
+        dict(name="message_scheme::ratchet::verif_proofs::three_requests_windows_le2", prop="C34", tier="thorough", timeout=3000,
              encodes="as above", bounds="3 requests over generations 0..3, windows 0..=2"),
         dict(name="message_scheme::ratchet::verif_proofs::window_arithmetic_any_head", prop="C34", timeout=600,
              encodes="secret_for_decryption window arithmetic", bounds="one request from an arbitrary head generation (< u32::MAX-8), arbitrary u32 windows, forward jump <= 3"),
